@@ -24,7 +24,7 @@ P = {
          "Every sequence over A_full (every call shape incl. rejected ones, missing queues, empty batches/payloads, retry/past/gap/huge positions, 5 truncate positions) is executed; every return value and, once per prefix, every accessor for all Included/Excluded/Unbounded bound pairs is compared byte for byte with the model. Ring-buffer wrap reads are measured.",
          "Trusts the reference model. Payload sizes and positions from the menu.", "5 C05"),
  "C06": ("SEQ", "bounded-exhaustive op sequences with frame-event attribution vs. real directory listing",
-         "After every truncate/delete_queue/open of every explored history the real directory listing is compared with the harness's own attribution of retained records to files (from frame events, independent of the implementation's reference counts).",
+         "After every truncate/delete_queue/open of every explored history (three policies) the directory listing is compared with the harness's own attribution of retained records to files (from frame events, independent of the implementation's reference counts); the same comparison is made after recovery from every crash point of the last op of every history of a crash profile (open after a crash).",
          "One genuine defect is recorded as a known finding (D4) with an exact predicate; everything else fails the check.", "5 C06, 6 D4"),
  "C07": ("FRAME", "exhaustive grid (start offset x entry length x follower lengths) over the real record writer/reader on in-memory blocks, plus through-files sequences",
          "In the 64-byte-block geometry the whole cube of start offsets, entry lengths up to several blocks and followers is enumerated and round-tripped through the real RecordWriter/RecordReader and cross-checked against an independent frame encoder; boundary grid in the real geometry; through-file sequences at every file_end-k.",
@@ -42,7 +42,7 @@ P = {
          "For images spanning 1-3 files every read_dir/open/read call of recovery is failed, once or forever, with each error kind; open must return Err(IoError) within the tick budget, never Ok.",
          "Interrupted and UnexpectedEof excluded (std retries / defined as short file).", "4.4, 5 C11"),
  "C12": ("CRASH+DAMAGE", "exhaustive crash points and frame damage restricted to batch appends, batch-integrity oracle",
-         "Histories containing multi-record batches at all alignments (1-5 blocks, across two files), every crash point inside the call and every single-frame damage; a recovered batch is whole or absent (minus a truncated head).",
+         "Histories containing multi-record batches at all alignments (1-5 blocks, across two files, sub-record boundaries on frame boundaries), every crash point inside the call, every single-frame damage of the batch (payload, CRC, type, length) and the whole in-place fault menu anywhere in images where the queue was deleted and re-created; a recovered batch is whole or absent (minus a truncated head).",
          "Same crash/damage models as C02/C09.", "5 C12"),
  "C13": ("SEQ", "bounded-exhaustive op sequences; I/O-trace emptiness + metamorphic restart comparison for every rejected/no-op call",
          "For every rejected or no-op call in every explored history: the I/O and frame trace of the call is empty, bytes==0, state and flushed WAL bytes unchanged, and the history without those calls restarts to the same state. Two policies.",
@@ -60,7 +60,7 @@ P = {
          "For each set of foreign entries (near-miss names, dirs, symlinks, valid-looking WAL content) every history with roll-over and GC runs; foreign entries must stay byte-identical, every created/removed/read name must be wal-<20 digits> and not foreign, and the model must still conform (numbering gaps included).",
          "Foreign-entry menu is finite (12 shapes).", "5 C17"),
  "C18": ("SEQ", "bounded-exhaustive op sequences, metamorphic projection H vs. H|q (model-free), with restarts and op-boundary crashes",
-         "For every history over two queues and each queue q, the history and its projection on q are executed; q's observable state must agree after every op of q, after restarts and after recovering a copy of the live directory.",
+         "For every history over two queues and each queue q, the history and its projection on q are executed; q's observable state must agree after every op of q, after restarts and after recovering a copy of the live directory; crash variant: every crash point inside a call addressed to the other queue, followed by [append to q, restart] x 2, against the projected history crashed at the same boundary.",
          "Model used only to resolve state-relative op arguments.", "5 C18"),
 }
 
